@@ -59,12 +59,11 @@ func runGuarded(limit time.Duration, f func() string) string {
 		}()
 		ch <- f()
 	}()
-	select {
-	case s := <-ch:
-		return s
-	case <-time.After(limit):
+	s, ok := waitVal(ch, limit, 4*limit)
+	if !ok {
 		return "TIMEOUT"
 	}
+	return s
 }
 
 func checkTokenOffsets(ts analysis.TokenStream, n int) string {
